@@ -1,10 +1,10 @@
 package main
 
 // Correspondence targets for the HEVC parser models of C16 (coq/c16/C16HevcParseModel.v = C15's HEVC model
-// with data-derived loop fuel).  C15's model does not cover pps_multilayer_extension / pps_3d_extension; the
-// fourth reference PPS of contextSets() uses one of them and, having id 0 like the others, is the one every
-// context slice refers to.  The "#m" targets therefore run against a reference context the model covers
-// completely (the first three PPS); the hostile inputs are those of the unsuffixed targets.
+// with data-derived loop fuel, plus C16's own skeletons of the PPS multilayer / 3D extension parsers, which
+// C15 does not model).  The "#m" targets return projected values of the slice header; their reference context
+// is the full one (all four reference PPS; the fourth selects the multilayer extension and, having id 0 like
+// the others, is the one every context slice refers to).
 
 import (
 	"fmt"
@@ -13,7 +13,7 @@ import (
 	"verifharness/hx"
 )
 
-var hevcModelPPSHex = hevcPPSHex[:3]
+var hevcModelPPSHex = hevcPPSHex
 
 var hevcModelCtx *ctxSets
 
